@@ -5,12 +5,16 @@
   iterations write the same cell shows up as a "shared" entry and this theorem stops checking.
 
   Why these kinds are private: every accumulation in `bin_kmu` / `bin_kppi` goes to the accumulator row of the executing thread (`tid = numba.get_thread_id()`), which is what `thread_independent` sums over.
+
+  `loopvar`, `tid` (the executing thread's own row) and `local` (an array created inside the loop body) are
+  unconditionally private and allowed everywhere; `block` / `cursor` kinds are allowed only where a theorem of this
+  property proves the blocks / cursors disjoint.
 -/
 import AbacusVerif.Generated.PrangeC08
 
 namespace AbacusVerif.PrangeC08
 
-def allowedKinds : List String := ["tid"]
+def allowedKinds : List String := ["tid", "loopvar", "local"]
 
 /-- every store in every `prange` loop is of a private kind -/
 theorem prange_writes_private : ∀ e ∈ prangeWrites, e.2.2 ∈ allowedKinds := by decide +kernel
